@@ -69,6 +69,7 @@ def main():
     only = None
     with_tests = False
     patch_dir = None
+    seeds = ["1"]
     i = 0
     while i < len(args):
         if args[i] == "--sandbox":
@@ -82,6 +83,9 @@ def main():
             i += 1
         elif args[i] == "--patches":
             patch_dir = args[i + 1]
+            i += 2
+        elif args[i] == "--seeds":
+            seeds = args[i + 1].split(",")
             i += 2
         else:
             i += 1
@@ -132,13 +136,15 @@ def main():
                 if rc != 0:
                     entry["notes"].append("the repository's own tests fail with this change (not a realistic mutant)")
             for c in checks:
-                rc, out = sh([os.path.join(verif, "check"), c, "--tier", "quick"], cwd=verif, env=env, timeout=7200)
-                viol = [l for l in out.splitlines() if l.startswith("VIOLATION ")]
-                sigs = sorted(set(re.findall(r"signature: (\S+)", out)))
-                if rc == 1 and viol:
-                    entry["caught_by"].append({"check": c, "violations": len(viol), "signatures": sigs[:6]})
-                else:
-                    entry["missed_by"].append({"check": c, "exit": rc, "tail": out.splitlines()[-4:]})
+                for sd in seeds:
+                    rc, out = sh([os.path.join(verif, "check"), c, "--tier", "quick"], cwd=verif, env=dict(env, VERIF_SEED=sd), timeout=7200)
+                    viol = [l for l in out.splitlines() if l.startswith("VIOLATION ")]
+                    sigs = sorted(set(re.findall(r"signature: (\S+)", out)))
+                    tagc = c if len(seeds) == 1 else f"{c}@seed{sd}"
+                    if rc == 1 and viol:
+                        entry["caught_by"].append({"check": tagc, "violations": len(viol), "signatures": sigs[:6]})
+                    else:
+                        entry["missed_by"].append({"check": tagc, "exit": rc, "tail": out.splitlines()[-4:]})
         except Exception as e:  # harness problem: report, never count as caught
             entry["notes"].append(f"error: {e}")
         finally:
